@@ -1545,6 +1545,76 @@ impl<'a> Gen<'a> {
     }
 }
 
+fn expr_cols(e: &E, out: &mut Vec<usize>) {
+    match e {
+        E::Lit(_) => {}
+        E::Col(i) => out.push(*i),
+        E::Not(a) | E::Neg(a) | E::Pos(a) | E::IsNull(_, a) => expr_cols(a, out),
+        E::And(a, b) | E::Or(a, b) | E::Cmp(_, a, b) | E::Arith(_, a, b) | E::Like(_, a, b) => {
+            expr_cols(a, out);
+            expr_cols(b, out)
+        }
+        E::Between(_, a, b, c) => {
+            expr_cols(a, out);
+            expr_cols(b, out);
+            expr_cols(c, out)
+        }
+        E::InList(_, a, xs) => {
+            expr_cols(a, out);
+            for x in xs {
+                expr_cols(x, out)
+            }
+        }
+    }
+}
+
+fn top_op(e: &E) -> &'static str {
+    match e {
+        E::Lit(_) => "lit",
+        E::Col(_) => "col",
+        E::Not(_) => "not",
+        E::Neg(_) | E::Pos(_) | E::Arith(..) => "arith",
+        E::And(..) => "and",
+        E::Or(..) => "or",
+        E::Cmp(..) => "cmp",
+        E::Like(..) => "like",
+        E::IsNull(..) => "isnull",
+        E::Between(..) => "between",
+        E::InList(..) => "in",
+    }
+}
+
+/// statement-level coverage: top operator of the predicate × does it read a column that holds a NULL in this
+/// population (so that the three-valued paths are really taken) × literal NULL
+fn predicate_tags(kind: &str, e: &E, from: &From, db: &[Table], tags: &mut BTreeSet<String>) {
+    let mut ls = Vec::new();
+    let mut w = 0;
+    leaves(from, db, &mut ls, &mut w);
+    let mut cols = Vec::new();
+    expr_cols(e, &mut cols);
+    let mut reads_null = false;
+    for c in cols {
+        for (t, start) in ls.iter().rev() {
+            if c >= *start {
+                if let Some(tb) = db.get(*t) {
+                    if tb.rows.iter().any(|r| r.get(c - start) == Some(&Val::Null)) {
+                        reads_null = true;
+                    }
+                }
+                break;
+            }
+        }
+    }
+    // outer joins produce NULLs of their own
+    let outer = matches!(from, From::Join(k, ..) if *k == "left" || *k == "right" || *k == "full");
+    tags.insert(format!(
+        "{}.top.{}.{}",
+        kind,
+        top_op(e),
+        if reads_null { "null-data" } else if outer && kind == "where" { "outer-join-nulls" } else { "no-null-data" }
+    ));
+}
+
 fn gen_line(rng: &mut Rng, nstmts: usize) -> Case {
     let mut g = Gen { rng, tags: BTreeSet::new(), safe_arith: false };
     let (p, pname) = *g.rng.pick(&[
@@ -1573,6 +1643,26 @@ fn gen_line(rng: &mut Rng, nstmts: usize) -> Case {
             stmts.push(Stmt::Select(g.select(&db, p)));
         }
     }
+    for st in &stmts {
+        match st {
+            Stmt::Select(q) => {
+                if let Some(w) = &q.where_ {
+                    predicate_tags("where", w, &q.from, &db, &mut g.tags);
+                }
+                let mut f = &q.from;
+                while let From::Join(_, l, _, on) = f {
+                    if let Some(on) = on {
+                        predicate_tags("on", on, f, &db, &mut g.tags);
+                    }
+                    f = l;
+                }
+            }
+            Stmt::Update(t, _, Some(w)) | Stmt::Delete(t, Some(w)) => {
+                predicate_tags("dmlwhere", w, &From::Table(*t), &db, &mut g.tags);
+            }
+            _ => {}
+        }
+    }
     let line = format!("sql {} ; {}", show_db(&db), stmts.iter().map(show_stmt).collect::<Vec<_>>().join(" ; "));
     let mut tags: Vec<String> = g.tags.into_iter().collect();
     tags.push("nt".into());
@@ -1589,10 +1679,13 @@ impl Engine for SqlEngine {
     }
 
     fn exec(&mut self, line: &str) -> String {
-        if let Some(rest) = line.strip_prefix("raw ") {
+        // debugging aids (not part of the protocol): `raw <sql>; <sql>…` runs SQL text on a scratch database,
+        // `show <case>` prints the SQL text of a case. Only with AXH_SQL_DEBUG set; otherwise such lines are `bad-op`.
+        let debug = std::env::var_os("AXH_SQL_DEBUG").is_some();
+        if let (true, Some(rest)) = (debug, line.strip_prefix("raw ")) {
             return raw(rest);
         }
-        if let Some(rest) = line.strip_prefix("show ") {
+        if let (true, Some(rest)) = (debug, line.strip_prefix("show ")) {
             return match parse_case(rest) {
                 None => "bad-op".into(),
                 Some((db, stmts)) => stmts.iter().map(|s| sql_stmt(s, &db)).collect::<Vec<_>>().join(" ; "),
